@@ -132,7 +132,9 @@ class _OrbitCorrectionService(_DynamicsServiceBase):
             options = self.correction_options
         
         # Cache key based on options
-        cache_key = self.make_key("correct", tuple(sorted(options.to_dict().items())))
+        # The result depends on the state the correction starts from, not only on the options
+        start_state = tuple(np.asarray(self.domain_obj.initial_state, dtype=float).tolist())
+        cache_key = self.make_key("correct", start_state, tuple(sorted(options.to_dict().items())))
 
         def _factory() -> tuple[np.ndarray, float, OrbitCorrectionDomainPayload, "CorrectionResult"]:
             result = self.corrector.correct(self.domain_obj, options=options)
@@ -144,10 +146,11 @@ class _OrbitCorrectionService(_DynamicsServiceBase):
                     "residual_norm": result.residual_norm,
                 }
             )
-            self.apply_correction(payload)
             return result.x_corrected, 2 * result.half_period, payload, result
 
         state, period, payload, result = self.get_or_create(cache_key, _factory)
+        # a cached result moves the orbit exactly like a fresh one
+        self.apply_correction(payload)
         return state, period, result
 
     def apply_correction(self, update: OrbitCorrectionDomainPayload) -> OrbitCorrectionDomainPayload:
@@ -157,9 +160,14 @@ class _OrbitCorrectionService(_DynamicsServiceBase):
         x_full = np.asarray(payload.x_full, dtype=float)
         half_period = float(payload.half_period)
 
-        self.domain_obj.dynamics.reset()
-        self.domain_obj.dynamics._initial_state = x_full
-        self.domain_obj.dynamics.period = 2.0 * half_period
+        dynamics = self.domain_obj.dynamics
+        dynamics.reset()
+        if not np.array_equal(dynamics._initial_state, x_full):
+            # the period setter only invalidates these when the period changes
+            dynamics._trajectory = None
+            dynamics._stability_info = None
+        dynamics._initial_state = x_full
+        dynamics.period = 2.0 * half_period
 
         return payload
 
@@ -222,6 +230,7 @@ class _OrbitCorrectionService(_DynamicsServiceBase):
         """
         self._correction_config = value
         self._corrector = None  # Invalidate cache to trigger recreation
+        self.reset()  # cached results were computed with the previous configuration
 
 
 class _OrbitContinuationService(_DynamicsServiceBase):
